@@ -816,6 +816,29 @@ func mergeAny(a, b any) any {
 	return out
 }
 
+// nestedObjects writes objects nested up to depth levels whose member names come from a tiny
+// pool, so that two such texts overlap at every level
+func nestedObjects(r *rand.Rand, depth int, sb *strings.Builder) {
+	if depth == 0 || r.IntN(5) == 0 {
+		sb.WriteString([]string{"1", "2", `"s"`, "null", "[1,2]", "true"}[r.IntN(6)])
+		return
+	}
+	sb.WriteByte('{')
+	first := true
+	for _, k := range []string{"k0", "k1", "k2"} {
+		if r.IntN(3) == 0 {
+			continue
+		}
+		if !first {
+			sb.WriteByte(',')
+		}
+		first = false
+		sb.WriteString(`"` + k + `":`)
+		nestedObjects(r, depth-1, sb)
+	}
+	sb.WriteByte('}')
+}
+
 func c14Type(r *rand.Rand) *tdesc {
 	c := &typeCfg{maxDepth: 1 + r.IntN(4), maxFields: 1 + r.IntN(5), tags: r.IntN(2) == 0, anys: true, floats: true, mergeable: true, mapKeys: []string{"string"}, plainNames: true}
 	t := genTypeDesc(r, c, 0)
@@ -834,6 +857,11 @@ func c14Exec(c *arshalCase) {
 	}()
 	r := rand.New(rand.NewPCG(c.Seed[0], c.Seed[1]))
 	td := c14Type(r)
+	deepAny := r.IntN(4) == 0
+	if deepAny { // objects nested several levels below untyped and map-typed destinations
+		td = &tdesc{K: "struct", Fields: []fdesc{{Go: "X", T: &tdesc{K: "any"}}, {Go: "M", T: &tdesc{K: "map", Key: &tdesc{K: "string"}, Elem: &tdesc{K: "any"}}},
+			{Go: "P", T: &tdesc{K: "ptr", Elem: &tdesc{K: "any"}}}}}
+	}
 	t := buildType(td)
 	c.Type = truncate(t.String(), 300)
 	k := 2 + r.IntN(3)
@@ -841,6 +869,18 @@ func c14Exec(c *arshalCase) {
 	for i := 0; i < k; i++ {
 		var sb strings.Builder
 		genJSONFor(r, td, &sb, 0)
+		if deepAny {
+			sb.Reset()
+			sb.WriteString(`{"X":`)
+			nestedObjects(r, 4, &sb)
+			sb.WriteString(`,"M":`)
+			nestedObjects(r, 4, &sb)
+			if r.IntN(2) == 0 {
+				sb.WriteString(`,"P":`)
+				nestedObjects(r, 3, &sb)
+			}
+			sb.WriteString(`}`)
+		}
 		tx := []byte(sb.String())
 		if i > 0 && r.IntN(2) == 0 { // a variation of the previous text: deep overlaps of nested objects
 			var prev any
